@@ -3,8 +3,10 @@ package props
 import (
 	"fmt"
 	"go/ast"
+	"go/parser"
 	"go/token"
 	"go/types"
+	"path/filepath"
 	"strings"
 
 	"octoverif/core"
@@ -52,6 +54,8 @@ func init() {
 }
 
 func runC23(c *core.Ctx) {
+	c.Rule("PQOPT", "parquet files are opened with options the pinned library honours")
+	checkParquetOpenOptions(c, "PQOPT")
 	c.Rule("CSVPARSE", "csv: inference and execution parse cells with the same parsers")
 	checkCSVParserAgreement(c, "CSVPARSE")
 	c.Rule("FLOATEXACT", "datasources parse floats exactly")
@@ -1324,4 +1328,76 @@ func checkExactFloatParsing(c *core.Ctx, rule string) {
 	}
 	c.OK(rule, "calls in package datasources", 0, calls, fmt.Sprintf("%d calls scanned, %d reach an inexact float parser", calls, n))
 	c.Floor(rule, 1, "datasource call sites scanned")
+}
+
+// checkParquetOpenOptions (PQOPT): octosql opens parquet files with "skip the page index, skip the bloom filters".
+// In the pinned parquet-go fork a *FileConfig passed as an option is a no-op — its ConfigureFile copies the *argument*
+// onto itself instead of the receiver's fields — so the page index is read anyway, and the page index reader indexes
+// RowGroups[0]: a file without row groups (an empty table) panics. The rule reads the resolved dependency's source:
+// if ConfigureFile ignores its receiver, no call may pass a *FileConfig as an option.
+func checkParquetOpenOptions(c *core.Ctx, rule string) {
+	p := c.Prog
+	pkg := p.Pkg("datasources/parquet")
+	key := "datasources/parquet/OpenFile options"
+	if pkg == nil {
+		c.Unknown(rule, key, 0, "package not found")
+		return
+	}
+	dep := pkg.Imports["github.com/segmentio/parquet-go"]
+	if dep == nil {
+		c.Unknown(rule, key, 0, "parquet-go dependency not resolved")
+		return
+	}
+	// does (*FileConfig).ConfigureFile read its receiver?
+	honoured, found := false, false
+	fset := token.NewFileSet()
+	for _, gf := range dep.GoFiles {
+		if filepath.Base(gf) != "config.go" {
+			continue
+		}
+		f, err := parser.ParseFile(fset, gf, nil, 0)
+		if err != nil {
+			continue
+		}
+		for _, d := range f.Decls {
+			fd, ok := d.(*ast.FuncDecl)
+			if !ok || fd.Name.Name != "ConfigureFile" || fd.Recv == nil || len(fd.Recv.List) != 1 || len(fd.Recv.List[0].Names) != 1 {
+				continue
+			}
+			if core.ExprStr(fd.Recv.List[0].Type) != "*FileConfig" {
+				continue
+			}
+			found = true
+			recv := fd.Recv.List[0].Names[0].Name
+			ast.Inspect(fd.Body, func(n ast.Node) bool {
+				if se, ok := n.(*ast.SelectorExpr); ok && core.ExprStr(se.X) == recv {
+					honoured = true
+				}
+				return true
+			})
+		}
+	}
+	if !found {
+		c.Unknown(rule, key, 0, "(*FileConfig).ConfigureFile not found in the dependency's config.go")
+		return
+	}
+	n, bad := 0, ""
+	for _, fr := range p.AllFuncs("datasources/parquet") {
+		info := fr.Info()
+		ast.Inspect(fr.Decl.Body, func(nd ast.Node) bool {
+			call, ok := nd.(*ast.CallExpr)
+			if !ok || !strings.HasSuffix(p.CalleeName(info, call), "parquet-go.OpenFile") {
+				return true
+			}
+			n++
+			c.SawFunc(p.FName(fr))
+			for _, a := range call.Args[min(2, len(call.Args)):] {
+				if t := info.TypeOf(a); t != nil && strings.HasSuffix(t.String(), "parquet-go.FileConfig") && !honoured && bad == "" {
+					bad = fmt.Sprintf("%s: a *parquet.FileConfig is passed as an option, but the pinned library's (*FileConfig).ConfigureFile never reads its receiver, so SkipPageIndex/SkipBloomFilters are ignored: the page index is read, and for a file without row groups (an empty table) its reader indexes RowGroups[0] and panics — pass parquet.SkipPageIndex(true), parquet.SkipBloomFilters(true)", p.Pos(call.Pos()))
+				}
+			}
+			return true
+		})
+	}
+	c.Decide(bad == "" && n >= 2, rule, key, 0, n, "the options are in a form the pinned library honours", bad)
 }
